@@ -247,6 +247,12 @@ def drv_fit(ctx, k_, rng):
     v = bool(rng.random() < 0.7)
     s = None if rng.random() < 0.6 else ((1.1,) if type(derivative.ul()).__name__ != "HestonStock" else (1.1, 0.05))
     opt_kind = pick(rng, ["default", "adam_class", "sgd_class", "adadelta_class", "sgd_inst", "adam_inst"])
+    if k_ % 12 == 5:
+        # deterministic coverage of: criterion with its own learnable parameter + optimiser instance holding all of hedger.parameters()
+        from pfhedge.nn.modules.loss import OCE
+
+        hedger.criterion = OCE(_oce_utility)
+        opt_kind, k = "sgd_inst", max(k, 1)
     lazy = mk == "lazy"
     ctx.branch("k=0" if k == 0 else ("k>=2" if k >= 2 else "k=1"))
     if not v:
